@@ -607,6 +607,57 @@ where
         }
         Sexp::tag("items", out)
     });
+    // the other typed entry points (only without a target block size, where the bytes must be the same):
+    // SpecificSingleObjectWriter / Reader, from_value on the generically decoded value, write_avro_datum_ref
+    let extra = if bs.is_none() && matches!(ser.tagged(), Some(("ok", _))) {
+        guarded(|| {
+            let flag = |b: bool| Sexp::num(b as i64);
+            let so = match apache_avro::SpecificSingleObjectWriter::<T>::new() {
+                Err(_) => Sexp::tag("writer-err", vec![]),
+                Ok(w) => {
+                    let mut msg: Vec<u8> = Vec::new();
+                    match w.write_ref(&value, &mut msg) {
+                        Err(_) => err(),
+                        Ok(n) => {
+                            let framed = msg.len() >= 10 && msg[0] == 0xC3 && msg[1] == 0x01 && msg[10..] == bytes[..];
+                            let back = apache_avro::SpecificSingleObjectReader::<T>::new()
+                                .and_then(|r| r.read(&mut &msg[..]))
+                                .map(|b| same_f(&b, &value));
+                            let generic_back = apache_avro::GenericSingleObjectReader::builder()
+                                .schema(schema.clone())
+                                .build()
+                                .and_then(|r| r.read_value(&mut &msg[..]))
+                                .is_ok();
+                            ok(vec![flag(n == msg.len()), flag(framed), flag(matches!(back, Ok(true))), flag(generic_back)])
+                        }
+                    }
+                }
+            };
+            let fromv = {
+                let r = GenericDatumReader::builder(&schema).build().and_then(|r| r.read_value(&mut &bytes[..]));
+                match r {
+                    Ok(v) => match apache_avro::from_value::<T>(&v) {
+                        Ok(b) => flag(same_f(&b, &value)),
+                        Err(_) => err(),
+                    },
+                    Err(_) => Sexp::tag("decode-err", vec![]),
+                }
+            };
+            let wadr = match apache_avro::schema::ResolvedSchema::try_from(&schema) {
+                Err(_) => Sexp::tag("resolve-err", vec![]),
+                Ok(rs) => {
+                    let mut b2: Vec<u8> = Vec::new();
+                    match apache_avro::write_avro_datum_ref(&schema, rs.get_names(), &value, &mut b2) {
+                        Ok(n) => ok(vec![flag(n == b2.len()), flag(b2 == bytes)]),
+                        Err(_) => err(),
+                    }
+                }
+            };
+            Sexp::tag("extra", vec![so, fromv, wadr])
+        })
+    } else {
+        Sexp::tag("skipped", vec![])
+    };
     Sexp::tag(
         "obs",
         vec![
@@ -620,6 +671,7 @@ where
             generic,
             tov,
             container,
+            extra,
         ],
     )
 }
